@@ -9,7 +9,9 @@ IMPORTS = ["Base.Prelude", "Model.Text", "Model.Obs"]
 
 
 BLOCK_TEXTS = ["abc\nabd\n", "ab cd ef\nab cd\n", "one two three\nfour five six\nseven eight nine\n", "a\nbcd\nef\nghij\n", "long line here\nx\nlong again ok\n",
-               "ab\n\ncd ef\n", "foo bar\nbaz qux\nquux\n", "x y z\n", "1234567\n12345\n123\n1\n"]
+               "ab\n\ncd ef\n", "foo bar\nbaz qux\nquux\n", "x y z\n", "1234567\n12345\n123\n1\n",
+               # characters of several code points in front of the block: rows and columns count characters
+               "a\u0301b\u0301c\nhello\nworld\n", "e\u0301\u0301x\nabc\nabd\n", "\U0001F468\u200D\U0001F469 ab\ncd ef gh\nij kl\n", "héllo wörld\nabc def\n"]
 
 
 def parse_sel(st):
@@ -135,42 +137,65 @@ def run(chk, binary):
     # ---- block selections made by <c-v> and plain motions: the field is the rectangle between where <c-v> was pressed and
     # the cursor, worked out here from the two positions alone (not from the windows the editor reports) ----
     breqs, bmeta = [], []
-    for _ in range(4000 if thorough else 500):
+    for _ in range(4000 if thorough else 600):
         text = rng.choice(BLOCK_TEXTS)
         if rng.random() < 0.5 and text.endswith("\n"):
             text = text[:-1]
-        cmd = "<c-v>" + "".join(rng.choice(["j", "j", "k", "l", "l", "h", "w", "b", "e", "2j", "2l", "3l", "G", "gg", "}", "{", "W", "0"]) for _ in range(rng.randint(1, 3)))
-        ok = [i for i, ch in enumerate(text) if ch != "\n"]
-        start = rng.choice(ok)
-        breqs.append({"op": "keys", "text": text, "cursor": start, "keys": [cmd], "pre_snm": True})
-        bmeta.append((text, cmd, start))
+        keys_ = [rng.choice(["j", "j", "k", "l", "l", "h", "w", "b", "e", "2j", "2l", "3l", "G", "gg", "}", "{", "W", "0", "o", "o"]) for _ in range(rng.randint(1, 4))]
+        cmd = "<c-v>" + "".join(keys_)
+        pre = rng.choice(["", "", "j", "l", "jl", "w"])           # the place where <c-v> is pressed is reached by a motion
+        breqs.append({"op": "keys", "text": text, "cursor": 0, "keys": ([pre] if pre else []) + [cmd], "pre_snm": True})
+        bmeta.append((text, pre, cmd))
     bans = server_map(binary, breqs)
-    for (text, cmd, start), a in zip(bmeta, bans):
+    for (text, pre, cmd), a in zip(bmeta, bans):
         steps = a.get("steps", [])
-        if len(steps) != 1 or "panic" in steps[-1] or "pre_snm" not in steps[-1]:
+        if len(steps) != (2 if pre else 1) or "panic" in steps[-1] or "pre_snm" not in steps[-1]:
             continue
         st = steps[-1]["pre_snm"]
         field = steps[-1]["field"].get("ok")
         if field is None or st["buf"] != text or not (st.get("select_mode") or "").startswith("Block"):
             continue
         tr = steps[-1].get("cmds", [])
-        if not all(c.get("done") and c.get("motion") and not c["motion"].startswith("Null") for c in tr[1:]):
+        if not tr or not all(c.get("done") and (c.get("verb") == "SwapVisualAnchor" or (c.get("motion") and not c["motion"].startswith("Null"))) for c in tr[1:]):
             continue
         dist["block_rectangles"] = dist.get("block_rectangles", 0) + 1
-        chk.count(("c01-block", text, cmd, start), nontrivial=True)
-        c1 = min(st["cursor"], len(text) - 1)
+        chk.count(("c01-block", text, pre, cmd), nontrivial=True)
+        cl = clusters(st)                                  # the characters of the text, as the segmentation library cuts them
+        start = tr[0]["c0"]
+        # the two corners, followed through the commands: a motion moves the cursor, o swaps the corners
+        anchor, cur = start, start
+        on_break = False
+        for c in tr[1:]:
+            if c.get("verb") == "SwapVisualAnchor":
+                anchor, cur = cur, anchor
+            else:
+                cur = min(c["c1"], len(cl) - 1)           # a motion that runs past the end stops on the last character
+                if cl[cur] == "\n" and cur > 0 and cl[cur - 1] != "\n":
+                    on_break = True
+        if on_break:
+            # a corner on the line break of a non-empty line (a motion overshot onto it): whether that column counts is
+            # a matter of how the motion ends (C02), not of the cut
+            dist["block_corner_on_line_break"] = dist.get("block_corner_on_line_break", 0) + 1
+            continue
         def pos(i):
-            ls = text.rfind("\n", 0, i) + 1
-            return text.count("\n", 0, i), i - ls
-        (l0, k0), (l1, k1) = pos(start), pos(c1)
-        lines = text.split("\n")
-        if text.endswith("\n"):
-            lines = lines[:-1]
-        rows = [ln[min(k0, k1):max(k0, k1) + 1] for ln in lines[min(l0, l1):max(l0, l1) + 1]]
+            ln = sum(1 for x in cl[:i] if x == "\n")
+            ls = max([k_ + 1 for k_ in range(i) if cl[k_] == "\n"] or [0])
+            return ln, i - ls
+        (l0, k0), (l1, k1) = pos(anchor), pos(cur)
+        lines, cur_line = [], []
+        for x in cl:
+            if x == "\n":
+                lines.append(cur_line)
+                cur_line = []
+            else:
+                cur_line.append(x)
+        if cur_line or not cl or cl[-1] != "\n":
+            lines.append(cur_line)
+        rows = ["".join(ln[min(k0, k1):max(k0, k1) + 1]) for ln in lines[min(l0, l1):max(l0, l1) + 1]]
         exp = "\n".join(rows)                 # a line that does not reach the rectangle gives an empty row
         if field != exp:
-            chk.violation("spec:a block selection made by <c-v> and motions is not the rectangle between where it began and the cursor",
-                          {"text": text, "cmd": cmd, "cursor_before": start, "cursor_after": c1, "field": field, "expected": exp,
+            chk.violation("spec:a block selection made by <c-v>, motions and o is not the rectangle between its two corners",
+                          {"text": text, "before": pre, "cmd": cmd, "corner_where_it_began": anchor, "cursor_after": cur, "field": field, "expected": exp,
                            "selection": [st.get("select_mode"), st.get("select_range")]})
     chk.cov["traces_validated_against_impl"] = len(cases) + len(breqs)
     chk.cov["input_distribution"] = dist
